@@ -6,8 +6,10 @@ MCInit == Init /\ hist = <<>>
 MCNext == Next /\ hist' = Append(hist, [op |-> out'.op, r |-> out'.r, f |-> out'.f,
                                          v |-> out'.v, q |-> out'.q, o |-> out'.o])
 MCSpec == MCInit /\ [][MCNext]_<<vars, hist>>
-\* exhaustive runs: the history and the observation are not part of the state identity
-MCView == <<recs, obs, link>>
+\* exhaustive runs: the observation and the content of the history are not part of the state
+\* identity; its length is, so that the depth bound is exact (every state reachable within
+\* MaxDepth operations is explored, independent of the order in which workers find states)
+MCView == <<recs, obs, link, Len(hist)>>
 CONSTANT MaxDepth
 Depth == Len(hist) < MaxDepth
 \* generation (simulation mode, -depth MaxDepth+1): print every behaviour of full length
